@@ -1,7 +1,10 @@
 """`X: t.TypeAlias = ...` (module-qualified TypeAlias) is emitted as a bare variable `X: t.TypeAlias` without its value.
 
 Exit status 1 = defect present, 0 = absent, 2 = inconclusive (preconditions of the input failed).
-Mechanism keys: stub-typecheck:parse-only:valid-type:Invalid type alias: expression is not a valid type:type-alias, stub-typecheck:semantic:valid-type:Invalid type alias: expression is not a valid type:type-alias"""
+Mechanism keys:
+  stub-typecheck:parse-only:valid-type:Invalid type alias: expression is not a valid type:type-alias
+  stub-typecheck:semantic:valid-type:Invalid type alias: expression is not a valid type:type-alias
+"""
 import os
 import sys
 
